@@ -233,6 +233,7 @@ theorem onProposerLastBlock_p {s s' : St} {prop : Seq} {r0 : Rollapp} (h : Roles
           apply h.core.of_setRa (r0 := r0) hg0 (by rfl)
           · intro a ha; exact h.core.succ r0 hr0 a ha
           · intro a ha; cases ha
+          · intro a ha; cases ha
           · intro a _ hs; cases hs
           · intro t a hta hpa
             rw [hp0] at hpa; injection hpa with hpa; subst hpa
